@@ -266,20 +266,22 @@ def check_flatten(run, A):
     q = M + 'quantile_mask'
     fn = A.prog.func(q)
     g = A.graphs.get(fn)
+    from ..walk import gamma_paths, cond_polarity
     pcs = [e for e in g.events if e.kind == 'call' and is_call_to(e.term, 'numpy.percentile')]
-    ok = len(pcs) == 2
-    if ok:
-        for e in pcs:
-            pol = [p for c, p in e.guards if c.op == 'cmp' and c.args[0] == 'GtE']
-            qarg = strip_views(call_arg(e.term, 1, 'q'))
-            if pol and pol[-1]:
-                ok = ok and any(x.op == 'binop' and x.args[0] == 'Sub' and const_val(x.args[1]) == 1 for x in walk_terms(qarg))
-            else:
-                ok = ok and any(is_call_to(x, 'builtin.abs') for x in walk_terms(qarg))
-            ok = ok and const_val(call_arg(e.term, None, 'axis')) == -1
+    # the quantile level: (1 - q) * 100 where quantile >= 0 holds, |q| * 100 where it does not (two guarded calls, or one call whose level is selected)
+    levels = []
+    ok = bool(pcs)
+    for e in pcs:
+        ok = ok and const_val(call_arg(e.term, None, 'axis')) == -1
+        for conds, leaf in gamma_paths(call_arg(e.term, 1, 'q')):
+            tests = list(conds.values()) + [cond_polarity(c, p) for c, p in e.guards]
+            pol = [p for c, p in tests if c.op == 'cmp' and c.args[0] == 'GtE']
+            upper = any(x.op == 'binop' and x.args[0] == 'Sub' and const_val(x.args[1]) == 1 for x in walk_terms(leaf))
+            lower = any(is_call_to(x, 'builtin.abs', 'numpy.abs') for x in walk_terms(leaf))
+            levels.append((pol[-1] if pol else None, 'upper' if upper and not lower else 'lower' if lower and not upper else '?'))
+    ok = ok and set(levels) == {(True, 'upper'), (False, 'lower')}
     # every comparison that fills the mask: `>` where quantile >= 0 holds, `<` where it does not (as two guarded stores, one store of a
     # conditional comparison, or np.greater / np.less selected by the same test)
-    from ..walk import gamma_paths, cond_polarity
     found = []
     for e in g.events:
         if e.kind != 'store':
